@@ -56,6 +56,14 @@ def reentrant_cancel_context(engine, st, fut):
     st.assume(z3.And(Val.is_intv(st.get("_me_cancelling", fid)), Val.i(st.get("_me_cancelling", fid)) >= 1))
 
 
+def label_key(engine, st, type_label, executor_name):
+    """The ghost cell of a metric child: labels(type=<str>, executor=<name value>)."""
+    from pyvc.vals import I as _I
+    f = z3.Function("label_key", Val, Val, _I)
+    t = Val.strv(z3.IntVal(STRINGS.get(type_label))) if type_label is not None else Val.none
+    return f(t, executor_name)
+
+
 def metrics_object(engine, st):
     """`metrics` module global: every attribute is a metric family (ghost counters, C20)."""
     return Z(ref(700000 + STRINGS.get("metrics")), "metrics")
@@ -143,9 +151,10 @@ class RecordCall(object):
     Event('repo-call', meth=<qualname>, args=[...]) and returns `ret`."""
     inline = False
 
-    def __init__(self, ret=None, ret_fn=None, may_raise=False):
+    def __init__(self, ret=None, ret_fn=None, may_raise=None):
         self.ret = ret
         self.ret_fn = ret_fn        # fn(engine, st) -> value   (fresh symbolic result per call)
+        self.may_raise = may_raise  # name of an exception class the callee may raise (second outcome)
 
     def apply(self, engine, st, fr, func, args, kwargs, star, starkw, node):
         from pyvc.state import Event
@@ -153,6 +162,14 @@ class RecordCall(object):
         args = list(args)
         if isinstance(star, TupleV):
             args += list(star.items)
+        if self.may_raise:
+            from pyvc.symexec import Raise
+            s2 = st.copy()
+            exc = engine.new_exc(s2, self.may_raise, "raised by %s" % func.qualname.split(".")[-1])
+            s2.decisions.append(("%s raises %s" % (func.qualname.split(".")[-1], self.may_raise), True))
+            s2.trace.append(Event("repo-call", meth=func.qualname, args=[engine.to_val(s2, a) for a in args] + ([engine.to_val(s2, x) for x in star.items] if isinstance(star, TupleV) else []),
+                                  kwargs={k: engine.to_val(s2, v) for k, v in kwargs.items()}, site=engine.site(fr, node), held=list(s2.held), exc=engine.to_val(s2, exc)))
+            yield s2, Raise(exc)
         ret = self.ret_fn(engine, st) if self.ret_fn else self.ret
         try:
             rv = engine.to_val(st, ret)
